@@ -126,17 +126,18 @@ func (s *Session) SetFuel(n int) { s.steps, s.fuel = 0, n }
 
 // StmtResult is the observation of one top-level statement.
 type StmtResult struct {
-	Compiled  bool
-	Val       value.Type
-	Canon     string // type-tagged rendering of Val
-	Display   string
-	Err       string // runtime error class ("" none)
-	Out       string // output written before any error report
-	Report    string // the runtime error report
-	Panic     string // host panic message ("" none)
-	PanicSite string // innermost /repo function on the panicking stack
-	FuelOut   bool
-	Steps     int
+	Compiled   bool
+	CompileErr string // RunInput only: processInput refused the statement
+	Val        value.Type
+	Canon      string // type-tagged rendering of Val
+	Display    string
+	Err        string // runtime error class ("" none)
+	Out        string // output written before any error report
+	Report     string // the runtime error report
+	Panic      string // host panic message ("" none)
+	PanicSite  string // innermost /repo function on the panicking stack
+	FuelOut    bool
+	Steps      int
 }
 
 // Observed renders the externally visible triple.
@@ -281,6 +282,62 @@ func (s *Session) RunTreeNoResult(t node.Type, fuel int) (res StmtResult) {
 	return s.run(t, fuel, false)
 }
 
+// oneTree is a node.Parser that hands processInput an already parsed statement.
+type oneTree struct{ t node.Type }
+
+func (o oneTree) Parse(string) ([]node.Type, node.ParserError) { return []node.Type{o.t}, nil }
+
+// RunInput runs one parsed top-level statement through the real processInput of the read-eval loop (symbol
+// resolution, compile with its refusal of oversized programs, run, echo) in REPL mode. The value is not available on
+// this path: Display is what the loop echoed, Err the class named by the report, CompileErr the refusal.
+func (s *Session) RunInput(t node.Type, fuel int) (res StmtResult) {
+	if s.Dead {
+		panic("impl: session used after a host panic")
+	}
+	s.install()
+	s.steps, s.fuel = 0, fuel
+	CaptureBegin()
+	defer func() {
+		if r := recover(); r != nil {
+			s.Dead = true
+			if _, ok := r.(FuelPanic); ok {
+				res.FuelOut = true
+			} else {
+				res.Panic = panicMessage(r)
+				res.PanicSite = PanicSite()
+			}
+			res.Out = CaptureEnd()
+		}
+		res.Steps = s.steps
+	}()
+	node.VerifProcessInput("", oneTree{t}, s.VM, true)
+	out := CaptureEnd()
+	res.Compiled = true
+	switch {
+	case strings.HasPrefix(out, "Compile error:"):
+		res.Compiled = false
+		res.CompileErr = strings.TrimSpace(strings.TrimPrefix(strings.SplitN(out, "\n", 2)[0], "Compile error:"))
+	case strings.Contains(out, "RUNTIME ERROR"):
+		i := strings.Index(out, "RUNTIME ERROR")
+		res.Report = out[i:]
+		res.Out = out[:i]
+		first := strings.SplitN(res.Report, "\n", 2)[0]
+		res.Err = strings.TrimSpace(strings.TrimPrefix(first, "RUNTIME ERROR :"))
+		if strings.HasPrefix(res.Err, "read error") {
+			res.Err = "read error"
+		}
+	default:
+		if i := strings.LastIndex(strings.TrimSuffix(out, "\n"), "\n> "); i >= 0 {
+			res.Out, res.Display = out[:i+1], strings.TrimSuffix(out[i+3:], "\n")
+		} else if strings.HasPrefix(out, "> ") {
+			res.Display = strings.TrimSuffix(out[2:], "\n")
+		} else {
+			res.Out = out
+		}
+	}
+	return res
+}
+
 func (s *Session) run(t node.Type, fuel int, used bool) (res StmtResult) {
 	if s.Dead {
 		panic("impl: session used after a host panic")
@@ -366,6 +423,40 @@ func Parse(src string, lexFuel int) (res ParseResult) {
 		}
 	}
 	return res
+}
+
+// ParseCached is Parse with the default parser fuel behind a small direct-mapped cache of successful results, for the
+// checks that execute sessions (their subject is what happens after the parser; the prelude statements of
+// every session are the same few texts and parsing dominates the cost of a session). The parser is a pure function
+// of the text (C07 and C13 check it directly, uncached) and nothing downstream modifies a tree: STRewrite builds a
+// new one. Failures (errors, panics, fuel) are never cached.
+func ParseCached(src string) ParseResult {
+	h := fnv1a(src) % uint64(len(parseCache))
+	if e := &parseCache[h]; e.ok && e.src == src {
+		return e.res
+	}
+	res := Parse(src, ParseFuel(len(src)))
+	if res.Err == "" && res.Panic == "" && res.FuelOut == "" && len(src) <= 400 {
+		parseCache[h] = parseEntry{src: src, res: res, ok: true}
+	}
+	return res
+}
+
+type parseEntry struct {
+	src string
+	res ParseResult
+	ok  bool
+}
+
+var parseCache [8192]parseEntry
+
+func fnv1a(s string) uint64 {
+	h := uint64(14695981039346656037)
+	for i := 0; i < len(s); i++ {
+		h ^= uint64(s[i])
+		h *= 1099511628211
+	}
+	return h
 }
 
 // DefaultLexFuel is the lexer budget for an input of n bytes: the scanning
